@@ -26,7 +26,7 @@ TIMEOUT = {"quick": 900, "thorough": 3600}
 SCTP_CLONES = {"quick": ['rand3', 'enum0'], "thorough": ['rand10', 'rand11', 'enum0', 'concurrent3']}
 FAULTS = ["none", "close", "reset", "dpr", "reconnect", "second_conn", "second_conn_before", "second_conn_then_close",
           "second_conn_then_dpr",
-          "dpr_then_late_dwa"]
+          "dpr_then_late_dwa", "second_conn_before_then_dpr"]
 
 
 def shards(tier, seed):
@@ -103,6 +103,11 @@ class Case:
             self.socks[t].append(self.connect(t, gen=len(self.socks[t])))
         elif f == "second_conn":
             self.socks[t].append(self.connect(t, gen=len(self.socks[t])))
+        elif f == "second_conn_before_then_dpr":
+            # the requests arrived on the peer's newer connection (not the one the node holds as the peer's current
+            # one); the DPR arrives on that same newer connection
+            p.send(M.dpr(name, self.REALM, hbh=900, e2e=900))
+            p.dpr_exchanged = True
         elif f == "dpr_then_late_dwa":
             # the node's watchdog request is under way when the peer disconnects; its answer arrives afterwards.
             # The connection has left the ready state for good: the late DWA changes nothing
@@ -142,7 +147,7 @@ class Case:
             w.start()
             for i in range(sp["npeers"]):
                 self.socks.append([self.connect(i)])
-            if sp["fault"] == "second_conn_before":
+            if sp["fault"] in ("second_conn_before", "second_conn_before_then_dpr"):
                 # the peer opens a second connection under the same identity, then sends on the newer one
                 t = sp["fault_target"]
                 self.socks[t].append(self.connect(t, gen=1))
